@@ -40,6 +40,7 @@ type wParams struct {
 	Timeout   int    `json:"timeout,omitempty"` // seconds; 0 = default 20
 	Columns   int    `json:"columns,omitempty"`
 
+	Faults    []wFault `json:"faults,omitempty"` // byte-level faults on the connection (wire next to the client, or the tunnel)
 	RawClient bool `json:"rawclient,omitempty"` // uploads: raw sending client built from product functions instead of the filter
 	FdLimit int   `json:"fdlimit,omitempty"` // RLIMIT_NOFILE during the execution (0 = unchanged)
 
@@ -48,6 +49,91 @@ type wParams struct {
 	Tree   string `json:"tree"`             // source tree recipe
 	DstPre string `json:"dstpre,omitempty"` // destination pre-population recipe
 	Seg    string `json:"seg,omitempty"`    // "", "byte", "coalesce", "cut:<c2s|s2c>:<offset>"
+}
+
+// wFault is one byte-level fault at an absolute offset of one direction of the connection.
+type wFault struct {
+	Dir  string `json:"dir"`  // "c2s" | "s2c"
+	Off  int    `json:"off"`  // offset in the unfaulted stream of that direction
+	Kind string `json:"kind"` // flip0 flip5 del dup insnl insA trunc
+}
+
+// faultFilter applies the faults of one direction to the chunks written to a wire.
+func faultFilter(faults []wFault, dir string) func([]byte) []byte {
+	var mine []wFault
+	for _, f := range faults {
+		if f.Dir == dir {
+			mine = append(mine, f)
+		}
+	}
+	if len(mine) == 0 {
+		return nil
+	}
+	pos := 0
+	dead := false
+	return func(b []byte) []byte {
+		start := pos
+		pos += len(b)
+		if dead {
+			return nil
+		}
+		out := b
+		copied := false
+		shift := 0 // how much earlier insertions/deletions in this chunk moved later offsets
+		for _, f := range mine {
+			if f.Off < start || f.Off >= start+len(b) {
+				continue
+			}
+			if !copied {
+				out = append([]byte(nil), b...)
+				copied = true
+			}
+			i := f.Off - start + shift
+			switch f.Kind {
+			case "flip0":
+				out[i] ^= 0x01
+			case "flip5":
+				out[i] ^= 0x20
+			case "del":
+				out = append(out[:i], out[i+1:]...)
+				shift--
+			case "dup":
+				out = append(out[:i+1], out[i:]...)
+				shift++
+			case "insnl":
+				out = append(out[:i], append([]byte{'\n'}, out[i:]...)...)
+				shift++
+			case "insA":
+				out = append(out[:i], append([]byte{'A'}, out[i:]...)...)
+				shift++
+			case "trunc":
+				out = out[:i]
+				dead = true
+				return out
+			}
+		}
+		return out
+	}
+}
+
+func chainFilters(fs ...func([]byte) []byte) func([]byte) []byte {
+	var live []func([]byte) []byte
+	for _, f := range fs {
+		if f != nil {
+			live = append(live, f)
+		}
+	}
+	if len(live) == 0 {
+		return nil
+	}
+	return func(b []byte) []byte {
+		for _, f := range live {
+			if b = f(b); b == nil {
+				return nil
+			}
+		}
+		return b
+	}
 }
 
 func (p wParams) String() string {
@@ -279,6 +365,7 @@ type worldResult struct {
 	SrvStdout    string
 	Term         string
 	C2S, S2C     []byte // wire next to the server
+	TunC2S, TunS2C []byte // tunnel connection next to the client (if any)
 	ClientExit   string // decoded #EXIT: message the client sent ("" if none)
 	ClientFail   string // decoded #fail:/#FAIL: message the client sent
 	ServerFail   string // decoded fail message the server sent
@@ -413,8 +500,21 @@ func buildWorld(p wParams) *world {
 	}
 	w.c2s[0].Seg = w.segFunc("c2s")
 	w.s2c[0].Seg = w.segFunc("s2c")
+	var actMitm func([]byte) []byte
 	if p.Protocol == 1 || p.Protocol == 3 {
-		w.c2s[0].Filter = mitmActProtocol(p.Protocol)
+		actMitm = mitmActProtocol(p.Protocol)
+	}
+	if p.Tunnel {
+		// with a tunnel the transfer's bytes travel over the connection nearest to the client
+		vs.OnDial = func(cli, srv *vs.Conn) {
+			if cli.Tag == "client" {
+				cli.OutPipe().Filter = chainFilters(actMitm, faultFilter(p.Faults, "c2s"))
+				srv.OutPipe().Filter = faultFilter(p.Faults, "s2c")
+			}
+		}
+	} else {
+		w.c2s[0].Filter = chainFilters(actMitm, faultFilter(p.Faults, "c2s"))
+		w.s2c[0].Filter = faultFilter(p.Faults, "s2c")
 	}
 	for i := 0; i < p.Relays; i++ {
 		r := NewTrzszRelay(w.c2s[i], w.s2c[i], w.c2s[i+1], w.s2c[i+1], TrzszOptions{})
@@ -648,6 +748,7 @@ func (w *world) result(s *vs.Sched) *worldResult {
 	for _, c := range vs.NetConns() {
 		if c.Name == "client.client" {
 			cliStreams = append(cliStreams, c.Sent())
+			r.TunC2S, r.TunS2C = c.Sent(), c.Received()
 		}
 		if strings.HasSuffix(c.Name, ".server") && c.Tag == w.srvConnTag() {
 			srvStreams = append(srvStreams, c.Sent())
@@ -685,6 +786,7 @@ func (w *world) srvConnTag() string {
 }
 
 func (w *world) cleanup() {
+	vs.OnDial = nil
 	os.Stdout = realStdout
 	if w.p.Fork {
 		os.Stdin.Close()
